@@ -186,12 +186,20 @@ namespace foonathan
                     mem = pool.allocate(count * node_size);
                     if (!mem)
                     {
-                        // reserve more then the default capacity if that didn't work either
+                        // reserve more then the default capacity if that didn't work either:
+                        // whole nodes of the pool, and they must fit into a fresh block
+                        // together with the fences and the alignment padding
+                        auto needed = (count * node_size + pool.node_size() - 1) / pool.node_size()
+                                      * pool.node_size();
                         detail::check_allocation_size<bad_array_size>(
-                            count * node_size,
-                            [&] { return next_capacity() - pool.alignment() + 1; }, info());
+                            needed,
+                            [&] {
+                                return next_capacity() - 2 * detail::debug_fence_size
+                                       - detail::max_alignment;
+                            },
+                            info());
 
-                        block = reserve_memory(pool, count * node_size);
+                        block = reserve_memory(pool, needed);
                         pool.insert(block.memory, block.size);
 
                         mem = pool.allocate(count * node_size);
